@@ -22,6 +22,11 @@ Theorem C01_one_minus_cutoff_is_half : R_of one_minus_cutoff = (/ 2)%R /\ fin on
 Proof. exact omc_R. Qed.
 Print Assumptions C01_one_minus_cutoff_is_half.
 
+(** quantize_to_step with its default third argument is the explicit-cutoff function at that constant *)
+Theorem C01_q2s_default_cutoff : forall t s, q2s_cut cutoff t s = q2s t s.
+Proof. exact q2s_cut_default. Qed.
+Print Assumptions C01_q2s_default_cutoff.
+
 (** step assignment is monotone in time (any sign), |t| <= 2^40 s, 0 <= sps <= 2^20 *)
 Theorem C01_q2s_monotone : forall t1 t2 s,
   fin t1 -> fin t2 -> fin s ->
